@@ -178,7 +178,7 @@ fn analyse(log: &str, cwd: &Path, allowed_raw: &dyn Fn(&Path) -> bool, tcp_liste
                 let paths = quoted_paths(l);
                 let Some(p) = paths.first() else { continue };
                 let pb = if Path::new(p).is_absolute() { PathBuf::from(p) } else { cwd.join(p) };
-                if p.ends_with("resolv.conf") || p == "/etc/hosts" || p.ends_with("/etc/host.conf") {
+                if p.ends_with("resolv.conf") || p == "/etc/hosts" || p.ends_with("/etc/host.conf") || p.ends_with("/etc/gai.conf") {
                     m.problems.push(("dns:resolver-configuration-read".into(), l.to_string()));
                 }
                 let writing = name == "creat" || l.contains("O_WRONLY") || l.contains("O_RDWR") || l.contains("O_CREAT") || l.contains("O_TRUNC") || l.contains("O_APPEND");
@@ -308,6 +308,45 @@ pub fn server_child(depth: usize) -> i32 {
     // its file dictionary must still land inside the configured directory
     let up = "..%2F".repeat(14);
     let weird_names = [format!("{up}escape.md"), format!("sub%2Fdir%2F{up}escape2.md"), "..%2F..%2Fnear.md".to_string(), "%2E%2E/up.md".to_string()];
+    // a file: URI with an authority (a host name must never be looked up), an untitled: buffer
+    let hosted = ["file://fileserver.example/share/notes.md".to_string(), "file://wsl.localhost/home/u/notes.md".to_string(), "untitled:Untitled-1".to_string()];
+    for uri in hosted.iter() {
+        let Ok(mut sess) = Session::new("c10") else { continue };
+        println!("world {}", sess.world.root.display());
+        for (label, msg) in [
+            ("open-hosted", crate::e3::Server::notification("textDocument/didOpen", json!({"textDocument": {"uri": uri, "languageId": "markdown", "version": 1, "text": "I like my tset."}}))),
+            ("change-hosted", crate::e3::Server::notification("textDocument/didChange", json!({"textDocument": {"uri": uri, "version": 2}, "contentChanges": [{"text": "I like teh tset."}]}))),
+            ("save-hosted", crate::e3::Server::notification("textDocument/didSave", json!({"textDocument": {"uri": uri}}))),
+        ] {
+            sess.server.enqueue(label, msg);
+            let _ = sess.server.run_default();
+        }
+        let add = sess.server.request("workspace/executeCommand", json!({"command": "HarperAddToFileDict", "arguments": ["tset", uri]}));
+        sess.server.enqueue("add-hosted", add);
+        let _ = sess.server.run_default();
+        n += 1;
+    }
+    // fault path: the configured statistics path cannot be opened (it is a directory)
+    {
+        if let Ok(mut sess) = Session::new("c10") {
+            println!("world {}", sess.world.root.display());
+            let bad = sess.world.docs_dir.clone();
+            if let Some(o) = sess.server.settings["harper-ls"].as_object_mut() {
+                o.insert("statsPath".into(), json!(bad.to_string_lossy()));
+            }
+            let all = crate::c09::ops();
+            sess.send(&all[0]);
+            let _ = sess.server.run_default();
+            let rec = serde_json::to_string(&harper_stats::RecordKind::Lint { kind: harper_core::linting::LintKind::Spelling, context: vec![] }).unwrap();
+            let req = sess.server.request("workspace/executeCommand", json!({"command": "HarperRecordLint", "arguments": [rec]}));
+            sess.server.enqueue("record", req);
+            let _ = sess.server.run_default();
+            let req = sess.server.request("shutdown", Value::Null);
+            sess.server.enqueue("shutdown", req);
+            let _ = sess.server.run_default();
+            n += 1;
+        }
+    }
     for weird in weird_names.iter() {
         let Ok(mut sess) = Session::new("c10") else { continue };
         println!("world {}", sess.world.root.display());
